@@ -134,10 +134,14 @@ class Explorer(object):
         for m in msgs:
             d = {'scenario': self.scn.name, 'kind': kind, 'message': m,
                  'path': list(path)}
-            what = self.known(d) if self.known else None
-            if what is not None:
-                self.res.known.setdefault(what, d)
+            k = self.known(d) if self.known else None
+            if k is not None:
+                self.res.known.setdefault(k['what'], d)
                 self.res.stats['known_finding_hits'] += 1
+                if not k.get('continue'):
+                    # the run is past a recorded defect: its continuation is
+                    # not explored (nothing after it is judged)
+                    self._prune_here = True
                 continue
             self.res.violations.append(d)
             new = True
@@ -241,8 +245,13 @@ class Explorer(object):
         ne, nm, nr = self._drain()
         ctx = Ctx(path, ne, nm, nr, False)
         viol = self.scn.check_step(pre, post, c, ctx)
+        self._prune_here = False
         if viol and self._violation(path, viol, 'step'):
             hpath.append(None)
+            return False, post
+        if self._prune_here:
+            hpath.append(None)
+            self.res.stats['pruned_after_known_finding'] += 1
             return False, post
         h = self._hash(post)
         hpath.append(h)
